@@ -71,16 +71,17 @@ class Spell:
             if name[:1].isalpha():
                 self.names.setdefault(name, pick[0][0])
 
-    def entry(self, conv, name, method=None, has=()):
-        """the definition registered under the camelCase `name` (a method / a function, having the parameters `has`)"""
+    def entry(self, conv, name, method=None, has=(), first=None):
+        """the definition registered under the camelCase `name` (a method / a function, having the parameters `has`,
+        `first` being its first one)"""
         i = 0
         while (name, i) in self.table:
             e = self.table[(name, i)][conv]
             if (method is None or (e.fd.is_method if method else e.fd.is_function)) and \
-                    all(h in e.alias for h in has):
+                    all(h in e.alias for h in has) and (first is None or e.params and e.params[0].name == first):
                 return e
             i += 1
-        raise KeyError((name, method, has))
+        raise KeyError((name, method, has, first))
 
     def lazy_parameters(self):
         """[(camel name, python parameter name, has a keyword spelling)] over the whole library"""
